@@ -81,6 +81,15 @@ namespace sqf
             }
 
             std::unordered_map<sqf::runtime::value, sqf::runtime::value>& map() { return m_map; }
+
+            void children(std::vector<std::shared_ptr<sqf::runtime::data>>& out) const override
+            {
+                for (auto& it : m_map)
+                {
+                    if (!it.first.empty()) { out.push_back(it.first.data()); }
+                    if (!it.second.empty()) { out.push_back(it.second.data()); }
+                }
+            }
         };
     }
 
